@@ -230,6 +230,10 @@ func (b *builder) buildC04() {
 			}
 		} else {
 			c = b.subConn(subKindsAll[b.r.Intn(len(subKindsAll))], 70)
+			if c.Cfg.Kind == "nameaddr" && b.r.Chance(1, 2) {
+				// any header kind value a caller might pass, known or not
+				c.Cfg.HType = b.r.PickInt(0, 3, 5, 9, 10, 14, 15, 16, 255, 1000, 65535)
+			}
 		}
 		if b.r.Chance(1, 3) {
 			c.Junk = b.junk(60)
